@@ -2281,6 +2281,36 @@ fn count_overflow(out: &mut Out) {
     out.oracle_case(case, true, "oracle.count_overflow");
 }
 
+/// `n` distinct names (one fresh label each under two or three shared suffixes),
+/// with re-pushes of earlier names in another ASCII case, as questions; then a
+/// few records whose owners and compressible record data are earlier names.
+fn many_names(r: &mut Rng, n: usize) -> Vec<Sym> {
+    let sufs = ["grow.test.", "Grow.Test.", "other.example."];
+    let mut names: Vec<String> = Vec::with_capacity(n);
+    let mut v: Vec<Sym> = Vec::with_capacity(n + n / 5 + 16);
+    for i in 0..n {
+        let l = match r.below(3) { 0 => format!("x{}", i), 1 => format!("host-{:x}", i), _ => format!("N{}y", i) };
+        let name = format!("{}.{}", l, sufs[r.below(3) as usize]);
+        v.push(qq(&name, 1));
+        names.push(name);
+        if i % 6 == 5 {
+            let old = &names[r.below(names.len() as u64) as usize];
+            let again = if r.chance(1, 2) { old.to_ascii_uppercase() } else { old.to_ascii_lowercase() };
+            v.push(qq(&again, 28));
+        }
+    }
+    v.push(g(1));
+    for _ in 0..6 {
+        let o = names[r.below(names.len() as u64) as usize].to_ascii_uppercase();
+        let tgt = names[r.below(names.len() as u64) as usize].clone();
+        v.push(rr(&o, 5, 60, vec![n_it(&tgt)]));
+    }
+    v.push(g(3));
+    let o = names[r.below(names.len() as u64) as usize].clone();
+    v.push(a_rr(&o, 1, [192, 0, 2, 7]));
+    v
+}
+
 // -------------------------------------------------------------------- main
 
 fn main() {
@@ -2335,6 +2365,21 @@ fn main() {
                 dispatch(&mut out, &Ctx { t, k, cap, size, script: &script });
             }
         }
+    }
+
+    // hashbrown growth: many distinct names under the hash compressor make the
+    // table grow and rehash several times (capacity 3, 7, 14, 28, 56, 112, 224,
+    // 448, 896, 1792 ...); earlier names are pushed again in between, in another
+    // ASCII case, so lookups after a rehash must still find them
+    let grow: &[(usize, char)] = if a.thorough { &[(160, 'v'), (160, 's'), (1100, 'v')] } else { &[(300, 'v'), (160, 's')] };
+    for &(n, t) in grow {
+        let mut gr = r.fork();
+        let script = many_names(&mut gr, n);
+        idx += 1;
+        if !out.wants(idx) {
+            continue;
+        }
+        dispatch(&mut out, &Ctx { t, k: 'h', cap: 0, size: "grow", script: &script });
     }
 
     if a.only.is_none() {
